@@ -9,7 +9,7 @@ EXPLANATION = ('Static rules: T2 every function that turns a deadline `at: Insta
                'saturating/checked_duration_since(now)), never now − deadline (at.elapsed(), now.duration_since(at)); T3 delay forwards errors '
                'immediately and schedules items and completion, observe_on schedules all three, each task delivering exactly its notification; '
                'T4 the delay handed to Scheduler::schedule is Some(<the operator\'s delay field>) for delay/delay_subscription and None for '
-               'observe_on/subscribe_on (that the scheduler waits for it is C19.H2). T5 an operator observer only appends to the MultiSubscription it shares with the returned subscription and never unsubscribes it (otherwise the task carrying the terminal is cancelled on append). T7 while handling a notification, the scheduling operators never ask their own task handles whether they are closed (a task handle is locked while its task runs, and an item produced from inside that task would wait for it for ever); T6 the delay timer of a scheduled task is armed inside the task future (at its first poll), never in Scheduler::schedule itself: with deadlines fixed at schedule time an already-expired later task runs inline while an earlier one that was polled too early is re-queued behind it, so items of one delay operator overtake each other on a busy scheduler. Declined: order preservation "whatever order the '
+               'observe_on/subscribe_on (that the scheduler waits for it is C19.H2). T8 where a delaying observer is built, its Duration field is the own Duration field of the operator, unchanged (no arithmetic, no clock between configuration and use). T5 an operator observer only appends to the MultiSubscription it shares with the returned subscription and never unsubscribes it (otherwise the task carrying the terminal is cancelled on append). T7 while handling a notification, the scheduling operators never ask their own task handles whether they are closed (a task handle is locked while its task runs, and an item produced from inside that task would wait for it for ever); T6 the delay timer of a scheduled task is armed inside the task future (at its first poll), never in Scheduler::schedule itself: with deadlines fixed at schedule time an already-expired later task runs inline while an earlier one that was polled too early is re-queued behind it, so items of one delay operator overtake each other on a busy scheduler. Declined: order preservation "whatever order the '
                'scheduler runs its ready tasks in" — each notification is an independent task and nothing re-sequences them, which on a '
                'k-worker pool quantifies over executor run orders that no static argument here bounds.')
 ASSUMPTIONS = ['Instant arithmetic as documented in std']
@@ -199,6 +199,49 @@ def t34(cx):
     for tag in SUB_SPEC:
         if tag not in seen:
             res.append(Finding(ID, 'T4', 'table:' + tag, False, 'table entry matches no impl (fail closed)'))
+    # T8: the delay an observer of T4 waits is the operator's configured one: wherever a delaying observer is built, its Duration
+    # field is a plain copy of the builder's own Duration field (nothing subtracted, no clock consulted between configuration and use)
+    obs_tags = {t for (t, m), (w, _w) in T_SPEC.items() if w == 'delay'}
+    built = 0
+    files = {str(cx.method(im, 'next')['span']).split(':')[0] for im in cx.observer_impls() if roles.impl_tag(cx, im) in obs_tags}
+    for fn in F.fns.values():
+        if str(fn.get('span', '')).split(':')[0] not in files:
+            continue
+        try:
+            g = cx.graph(fn['key'])
+        except Exception:
+            continue
+        for n in g.nodes:
+            if n.get('ctx'):
+                continue
+            for ex in [n.get('rhs'), n.get('value')] + list(n.get('args') or []):
+                if not isinstance(ex, tuple):
+                    continue
+                for e in walk(ex):
+                    if not (isinstance(e, tuple) and e and e[0] == 'agg' and e[1] == 'adt'):
+                        continue
+                    ot = [t for t in obs_tags if e[2].startswith(t + '::')]
+                    if not ot:
+                        continue
+                    idx = [i for i, (f_, t_) in enumerate(roles.adt_fields(cx, ot[0])) if F.adt_path(t_) == 'std::time::Duration']
+                    for i in idx:
+                        if i >= len(e[3]):
+                            continue
+                        built += 1
+                        r = render(strip(e[3][i]))
+                        okd = r.startswith('self.') and r.count('.') == 1 and '(' not in r
+                        res.append(Finding(ID, 'T8', '%s|%s' % (cx.label(fn), ot[0].rsplit('::', 1)[-1]), okd,
+                                           'the observer waits the configured delay (%s)' % r if okd else
+                                           'the delay the observer is built with is %s, not the operator\'s configured delay field unchanged: items are delivered earlier (or later) than the configured delay after they were produced' % r[:120],
+                                           g.loc(n)))
+    # each construction site is met once per node expression it is embedded in: keep one verdict per key (a failing one wins)
+    t8 = {}
+    for f in [x for x in res if x.rule == 'T8']:
+        if f.key not in t8 or not f.ok:
+            t8[f.key] = f
+    res = [x for x in res if x.rule != 'T8'] + list(t8.values())
+    if len(t8) < 2:
+        res.append(Finding(ID, 'T8', 'floor', False, 'expected the construction sites of DelayObserver and DelayObserverThreads, found %d' % len(t8)))
     return res
 
 
